@@ -196,4 +196,29 @@ example : evmGasLimit true true false 40000000 31000000 = some (30000000 + 18446
 
 example : rawGasLimit [] true = some 30000000 ∧ rawGasLimit [48] false = some 6000000 ∧ rawGasLimit [43, 49] true = none := by decide
 
+/-! ## `calcReceiptsTree` -/
+
+/-- the hashed bytes are the receipts' JSON encodings in list order: concatenating lists concatenates them -/
+theorem receiptsPreimage_append (h : Nat) (r₁ r₂ : List Receipt) :
+    receiptsPreimage h (r₁ ++ r₂) = receiptsPreimage h r₁ ++ receiptsPreimage h r₂ := by
+  unfold receiptsPreimage
+  simp
+
+/-- the root is a function of height, statuses and transaction hashes in order — nothing else of a
+    receipt (message text, source) reaches it -/
+theorem receiptsRoot_ignores_msg (h : Nat) (rs : List Receipt) (f : Receipt → Bytes) :
+    receiptsRoot h (rs.map (fun r => { r with msg := f r })) = receiptsRoot h rs := by
+  unfold receiptsRoot receiptsPreimage
+  simp only [List.isEmpty_map, List.map_map]
+  congr 2
+
+set_option maxRecDepth 20000 in
+/-- …and the order does matter: swapping two receipts changes the hashed bytes -/
+theorem receiptsPreimage_order_matters :
+    receiptsPreimage 5 [⟨1, false, [], 0⟩, ⟨2, true, [], 0⟩] ≠ receiptsPreimage 5 [⟨2, true, [], 0⟩, ⟨1, false, [], 0⟩] := by
+  decide
+
+set_option maxRecDepth 20000 in
+example : (receiptJson 7 ⟨255, false, [], 0⟩).length = 207 := by decide
+
 end Rangers.Props.C01F
